@@ -121,7 +121,7 @@ def extra_cases(rng, tier):
 def run_cases(cases, timeout=90):
     wd = scratch("c06")
     procs = []
-    env = dict(os.environ, PYTHONPATH=VERIF, PYTHONHASHSEED="0", NUMBA_NUM_THREADS="1", OMP_NUM_THREADS="1", MALLOC_CHECK_="3")
+    env = dict(os.environ, PYTHONPATH=core.pythonpath(), PYTHONHASHSEED="0", NUMBA_NUM_THREADS="1", OMP_NUM_THREADS="1", MALLOC_CHECK_="3")
     results = [None] * len(cases)
     pending = list(enumerate(cases))
     running = []
